@@ -124,14 +124,18 @@ func (i *Indexer) Notify(_ context.Context, blk *chain.ExecutedBlock) error {
 // cache.
 // assumes the write lock is held
 func (i *Indexer) insertBlockIntoCache(blk *chain.ExecutedBlock) {
-	if evictedBlk, ok := i.blockHeightToBlock[blk.Block.Hght-i.blockWindow]; ok {
-		// remove the block from the caches
-		delete(i.blockIDToHeight, evictedBlk.Block.GetID())
-		delete(i.blockHeightToBlock, evictedBlk.Block.GetHeight())
-
-		// remove the transactions from the cache.
-		for _, tx := range evictedBlk.Block.Txs {
-			delete(i.txCache, tx.GetID())
+	if blk.Block.Hght >= i.blockWindow {
+		evictHeight := blk.Block.Hght - i.blockWindow
+		if i.lastHeight != math.MaxUint64 && blk.Block.Hght > i.lastHeight+1 {
+			// Heights are not contiguous (ie. the node state synced past some
+			// blocks), so more than one block may have left the window.
+			for height := range i.blockHeightToBlock {
+				if height <= evictHeight {
+					i.evictBlockFromCache(height)
+				}
+			}
+		} else {
+			i.evictBlockFromCache(evictHeight)
 		}
 	}
 
@@ -145,6 +149,22 @@ func (i *Indexer) insertBlockIntoCache(blk *chain.ExecutedBlock) {
 		}
 	}
 	i.lastHeight = blk.Block.Hght
+}
+
+// evictBlockFromCache removes the block at [height] and its transactions from
+// the caches.
+// assumes the write lock is held
+func (i *Indexer) evictBlockFromCache(height uint64) {
+	evictedBlk, ok := i.blockHeightToBlock[height]
+	if !ok {
+		return
+	}
+	delete(i.blockIDToHeight, evictedBlk.Block.GetID())
+	delete(i.blockHeightToBlock, height)
+
+	for _, tx := range evictedBlk.Block.Txs {
+		delete(i.txCache, tx.GetID())
+	}
 }
 
 // storeBlock persist the given block to the database, and deletes a block
